@@ -1,0 +1,225 @@
+package goose
+
+import (
+	"go/ast"
+	"go/token"
+	"go/types"
+)
+
+// Go converts a value to an interface type wherever it is assigned to one:
+// in assignments, variable declarations, returns, composite literals and
+// arguments. An interface value is a GooseLang struct of the methods, built
+// by a conversion definition S__to__I, and the only place where goose emits
+// that conversion is a struct passed as the first argument of a function
+// (see callExpr). Everywhere else the operand would be used as if it were the
+// interface value already, so those places are reported.
+
+// checkToInterface reports a value of type from that becomes a to.
+func (ctx Ctx) checkToInterface(n ast.Node, from types.Type, to types.Type) {
+	if from == nil || to == nil {
+		return
+	}
+	if _, ok := to.(*types.TypeParam); ok {
+		return
+	}
+	if _, ok := to.Underlying().(*types.Interface); !ok {
+		return
+	}
+	if isDisk(to) {
+		// the disk is not an interface value in GooseLang
+		return
+	}
+	if b, ok := from.(*types.Basic); ok && b.Kind() == types.UntypedNil {
+		return
+	}
+	if types.Identical(from, to) {
+		return
+	}
+	ctx.unsupported(n, "implicit conversion of %v to interface type %v", from, to)
+}
+
+func (ctx Ctx) checkExprToInterface(e ast.Expr, to types.Type) {
+	tv, ok := ctx.info.Types[e]
+	if !ok {
+		return
+	}
+	ctx.checkToInterface(e, tv.Type, to)
+}
+
+// checkValuesToInterface handles values assigned to destinations of the types
+// tos, where a single multiple-valued call may supply all of them
+func (ctx Ctx) checkValuesToInterface(values []ast.Expr, tos []types.Type) {
+	if len(values) == len(tos) {
+		for i, v := range values {
+			ctx.checkExprToInterface(v, tos[i])
+		}
+		return
+	}
+	if len(values) == 1 {
+		if tuple, ok := ctx.info.Types[values[0]].Type.(*types.Tuple); ok &&
+			tuple.Len() == len(tos) {
+			for i := range tos {
+				ctx.checkToInterface(values[0], tuple.At(i).Type(), tos[i])
+			}
+		}
+	}
+}
+
+func (ctx Ctx) compositeLitToInterface(lit *ast.CompositeLit) {
+	tv, ok := ctx.info.Types[lit]
+	if !ok {
+		return
+	}
+	switch t := tv.Type.Underlying().(type) {
+	case *types.Struct:
+		for i, elt := range lit.Elts {
+			if kv, ok := elt.(*ast.KeyValueExpr); ok {
+				if key, ok := kv.Key.(*ast.Ident); ok {
+					for j := 0; j < t.NumFields(); j++ {
+						if t.Field(j).Name() == key.Name {
+							ctx.checkExprToInterface(kv.Value, t.Field(j).Type())
+						}
+					}
+				}
+			} else if i < t.NumFields() {
+				ctx.checkExprToInterface(elt, t.Field(i).Type())
+			}
+		}
+	case *types.Slice, *types.Array:
+		elem := t.(interface{ Elem() types.Type }).Elem()
+		for _, elt := range lit.Elts {
+			if kv, ok := elt.(*ast.KeyValueExpr); ok {
+				elt = kv.Value
+			}
+			ctx.checkExprToInterface(elt, elem)
+		}
+	case *types.Map:
+		for _, elt := range lit.Elts {
+			if kv, ok := elt.(*ast.KeyValueExpr); ok {
+				ctx.checkExprToInterface(kv.Key, t.Key())
+				ctx.checkExprToInterface(kv.Value, t.Elem())
+			}
+		}
+	}
+}
+
+func (ctx Ctx) callArgsToInterface(call *ast.CallExpr) {
+	if ctx.isBuiltinIdent(call.Fun, "append") && len(call.Args) > 0 &&
+		call.Ellipsis == token.NoPos {
+		if s, ok := ctx.typeOf(call.Args[0]).Underlying().(*types.Slice); ok {
+			for _, arg := range call.Args[1:] {
+				ctx.checkExprToInterface(arg, s.Elem())
+			}
+		}
+		return
+	}
+	sel, ok := ast.Unparen(call.Fun).(*ast.SelectorExpr)
+	if !ok {
+		// callExpr converts or reports the arguments of these calls
+		return
+	}
+	if obj, ok := ctx.info.Uses[sel.Sel]; ok && obj.Pkg() != nil {
+		if _, special := specialPackages[obj.Pkg().Path()]; special {
+			// translated by name, whatever the Go signature says
+			return
+		}
+	}
+	sig, ok := ctx.typeOf(call.Fun).(*types.Signature)
+	if !ok {
+		return
+	}
+	params := sig.Params()
+	if len(call.Args) == 1 && params.Len() > 1 {
+		// f(g()) is reported by callExpr
+		return
+	}
+	for i, arg := range call.Args {
+		switch {
+		case sig.Variadic() && i >= params.Len()-1:
+			if call.Ellipsis != token.NoPos {
+				continue
+			}
+			last := params.At(params.Len() - 1).Type()
+			if s, ok := last.(*types.Slice); ok {
+				ctx.checkExprToInterface(arg, s.Elem())
+			}
+		case i < params.Len():
+			ctx.checkExprToInterface(arg, params.At(i).Type())
+		}
+	}
+}
+
+// checkInterfaceConversions reports the implicit conversions to an interface
+// type below n that goose does not translate.
+func (ctx Ctx) checkInterfaceConversions(n ast.Node, sig *types.Signature) {
+	sigs := []*types.Signature{sig}
+	var visit func(n ast.Node) bool
+	visit = func(n ast.Node) bool {
+		switch n := n.(type) {
+		case *ast.FuncLit:
+			if s, ok := ctx.typeOf(n).(*types.Signature); ok {
+				sigs = append(sigs, s)
+				ast.Inspect(n.Body, visit)
+				sigs = sigs[:len(sigs)-1]
+				return false
+			}
+		case *ast.ReturnStmt:
+			if s := sigs[len(sigs)-1]; s != nil && len(n.Results) > 0 {
+				var tos []types.Type
+				for i := 0; i < s.Results().Len(); i++ {
+					tos = append(tos, s.Results().At(i).Type())
+				}
+				ctx.checkValuesToInterface(n.Results, tos)
+			}
+		case *ast.AssignStmt:
+			if n.Tok != token.ASSIGN && n.Tok != token.DEFINE {
+				break
+			}
+			var tos []types.Type
+			for _, lhs := range n.Lhs {
+				var to types.Type
+				if ident, ok := lhs.(*ast.Ident); ok {
+					// a variable this statement defines takes the type of
+					// its value; _ takes any
+					if obj, ok := ctx.info.Uses[ident]; ok {
+						to = obj.Type()
+					}
+				} else if tv, ok := ctx.info.Types[lhs]; ok {
+					to = tv.Type
+				}
+				tos = append(tos, to)
+			}
+			ctx.checkValuesToInterface(n.Rhs, tos)
+		case *ast.ValueSpec:
+			if n.Type != nil && len(n.Values) > 0 {
+				var tos []types.Type
+				for range n.Names {
+					tos = append(tos, ctx.typeOf(n.Type))
+				}
+				ctx.checkValuesToInterface(n.Values, tos)
+			}
+		case *ast.CompositeLit:
+			ctx.compositeLitToInterface(n)
+		case *ast.CallExpr:
+			if !ctx.info.Types[n.Fun].IsType() {
+				ctx.callArgsToInterface(n)
+			}
+		case *ast.IndexExpr:
+			if tv, ok := ctx.info.Types[n.X]; ok {
+				if m, ok := tv.Type.Underlying().(*types.Map); ok {
+					ctx.checkExprToInterface(n.Index, m.Key())
+				}
+			}
+		case *ast.BinaryExpr:
+			if n.Op == token.EQL || n.Op == token.NEQ {
+				x, y := ctx.info.Types[n.X].Type, ctx.info.Types[n.Y].Type
+				if x != nil && y != nil {
+					ctx.checkToInterface(n.Y, y, x)
+					ctx.checkToInterface(n.X, x, y)
+				}
+			}
+		}
+		return true
+	}
+	ast.Inspect(n, visit)
+}
